@@ -485,10 +485,43 @@ def arg_boundaries(a, p, acc):
         boundaries(a[3], p + 1, acc)
     return p + len(unparse_arg(a))
 
+def verbatim_texts(items):
+    """the verbatim contents (with their delimiters) written anywhere in the document"""
+    out = []
+    def arg(a):
+        if a[0] in ('br', 'grp'): walk(a[1])
+        elif a[0] == 'del': walk(a[3])
+        elif a[0] == 'verb': out.append(a[1] + a[3] + a[2])
+    def walk(its):
+        for it in its:
+            k = it[0]
+            if k == 'G': walk(it[1])
+            elif k == 'F': walk(it[2])
+            elif k == 'M':
+                for a in it[3]: arg(a)
+            elif k == 'E':
+                for a in it[2]: arg(a)
+                walk(it[3])
+            elif k == 'S':
+                for a in it[2]: arg(a)
+            elif k == 'V': out.append(it[1] + it[2] + it[1])
+            elif k == 'VE':
+                if it[2] is not None: walk(it[2])
+                out.append(it[3])
+    walk(items)
+    return out
+
+STRUCTURAL = set('{}[]$\\%')
+
 FAULTS = ['{', '}', '$', '\\(', '\\)', '\\[', '\\]', '\\begin{zz}', '\\end{zz}']
 
 def fault_sites(items, rng, ctxname, maxn=12):
     s = unparse(items)
+    # A fault in front of a verbatim construct can change how the verbatim text is read (e.g. `}` before `\verb!{{}!}`
+    # makes `\verb` a one-token argument and the former verbatim text ordinary, balanced markup): the faulty document
+    # is then not unbalanced.  Faults are injected only where no verbatim text carries structural characters.
+    if any(STRUCTURAL & set(v) for v in verbatim_texts(items)):
+        return []
     bs = sorted(set(boundaries(items)))
     sites = []
     for b in bs:
